@@ -405,7 +405,16 @@ QUIESCENT_H = sh("c03_snapshot_quiescent", RD,
 QUIESCENT_H_C03 = dict(QUIESCENT_H, only=r"C03\.|C04\.|C18\.snapshot\.quiescent_call")
 ONE_UPDATE_H = sh("c03_snapshot_one_publication_during_the_call", RD, replayable=False,
                   unwind_obligation="C03.one_update.needs_at_most_two_iterations")
-SNAPSHOT_VERUS = {"kind": "verus", "gen": "snapshot", "obligations": [r"C18\.verus\..*"], "rlimit": 30}
+ADVERSARIAL_H = sh("c18_snapshot_adversarial_bounded", RD, replayable=False,
+                   unwind_obligation="C18.snapshot.no_loop_beyond_the_retry_budget",
+                   completeness="bounded: retry budget overridden to 3 (real: 1 000 000), loop fully unwound")
+# The parity clause needs an inductive invariant that names a local of `snapshot`; a restructured body can make
+# it unprovable without the property being broken, so its failure counts as a violation only together with a
+# counterexample of the bounded adversarial Kani harness (same rule as for the float-shape clauses), else exit 2.
+SNAPSHOT_VERUS = {"kind": "verus", "gen": "snapshot", "obligations": [r"C18\.verus\..*"], "rlimit": 30,
+                  "float_dependent": ["C18.verus.a_newly_cached_generation_is_even"],
+                  "needs_input_reason": "an inductive invariant spliced into the extracted loop (it names a local of snapshot)",
+                  "pair": dict(SHM_READ_GRP, harnesses=[ADVERSARIAL_H])}
 OPEN_H = sh("c16_open_any_file", RD, replayable=False, timeout=900)
 PROBE_H = sh("c16_usability_probe_agrees_with_client_open", WR, replayable=False, timeout=900)
 WIPE_NATIVE = {"kind": "native", "crate": "clock-bound-shm", "units": ["shm_wipe_search"], "features": "writer", "test": "verif_search_wipe",
@@ -730,8 +739,6 @@ PROPS = {
         "trusted": ["harness/clock-bound-shm/verif_read.rs (environment_step, ghost counters)", "verus/snapshot.rs.tmpl (stand-ins for the shared segment)", "tools/verus_gen.py gen_snapshot (3 rewrites + loop contract)"],
         "groups": [SNAPSHOT_VERUS,
                    dict(SHM_READ_GRP, harnesses=[QUIESCENT_H,
-                                                 sh("c18_snapshot_adversarial_bounded", RD, replayable=False,
-                                                    unwind_obligation="C18.snapshot.no_loop_beyond_the_retry_budget",
-                                                    completeness="bounded: retry budget overridden to 3 (real: 1 000 000), loop fully unwound")])],
+                                                 ADVERSARIAL_H])],
     },
 }
